@@ -1,9 +1,19 @@
 --------------------------- MODULE Trace_PipelineEq ---------------------------
+(* TLC judges recorded pairs of real runs.  The batch file holds
+     cli   : Seq([one, two, motion])                      pairs of bin/martinize2 SUBPROCESS runs, abstracted from their files
+     runs  : Seq(run)                                     in-process runs of the real entry(), recorded stage by stage
+     pairs : Seq([one, two, motion, thr, fadm])           indices into runs; thr / fadm = the items lying on a threshold
+   Trace ids 1..Len(cli) are the file-level pairs, the following ones the stage-wise pairs. *)
 EXTENDS PipelineEq, Json, IOUtils
 Batch == JsonDeserialize(IOEnv.TRACE_FILE)
+NCli == Len(Batch.cli)
 VARIABLES tid, verdict
 vars == <<tid, verdict>>
-Init == tid \in 1..Len(Batch) /\ verdict = "pending"
-Eval == verdict = "pending" /\ verdict' = JudgePair(Batch[tid]) /\ UNCHANGED tid
+Pending == [st |-> "pending", stage |-> 0, name |-> "", how |-> "", where |-> <<>>, adm |-> 0, files |-> ""]
+Init == tid \in 1..(NCli + Len(Batch.pairs)) /\ verdict = Pending
+Judge(t) ==
+  IF t <= NCli THEN [st |-> JudgePair(Batch.cli[t]), stage |-> 0, name |-> "", how |-> "", where |-> <<>>, adm |-> 0, files |-> ""]
+  ELSE LET p == Batch.pairs[t - NCli] IN JudgeStages(Batch.runs[p.one], Batch.runs[p.two], p.motion, p.thr, p.fadm)
+Eval == verdict.st = "pending" /\ verdict' = Judge(tid) /\ UNCHANGED tid
 Spec == Init /\ [][Eval]_vars
 =============================================================================
